@@ -113,6 +113,17 @@ def make_strategy(script: dict):
                         except Exception as ex:
                             d[key + '|cur'] = f'raise:{type(ex).__name__}'
                     ev['candles'] = d
+            if self.s.get('use_shared') and name == 'before':
+                sv = self.shared_vars
+                sv['verif_counter'] = sv.get('verif_counter', 0) + 1
+                ev['shared_counter'] = sv['verif_counter']
+            if self.s.get('use_indicator') and name == 'before':
+                try:
+                    import jesse.indicators as ta
+                    val = ta.sma(self.get_candles(self.exchange, self.symbol, '1m'), self.s['use_indicator'])
+                    ev['ind'] = None if val != val else float(val)
+                except Exception as ex:
+                    ev['ind'] = f'raise:{type(ex).__name__}'
             if self.s.get('log_hp'):
                 ev['hp'] = None if self.hp is None else {k: (v if isinstance(v, (int, float)) else repr(v)) for k, v in self.hp.items()}
                 ev['hp_types'] = None if self.hp is None else {k: type(v).__name__ for k, v in self.hp.items()}
